@@ -1098,6 +1098,17 @@ func (x *Exec) evalLocs(st *State, exprs []ast.Expr, lenient bool) ([]modLoc, []
 			}
 			continue
 		}
+		if call, ok := m.(*ast.CallExpr); ok && markerName(call) == "__mapcontent" {
+			// the bindings of one map (its key set and values)
+			mt, okm := x.typeOf(call.Args[0]).Underlying().(*types.Map)
+			if !okm {
+				x.unsupported(m, "mapcontent needs a map")
+			}
+			mref := x.eval(st, call.Args[0])
+			dn, vn, _, _ := x.mapHeaps(mt)
+			locs = append(locs, modLoc{heap: dn, ref: mref}, modLoc{heap: vn, ref: mref})
+			continue
+		}
 		if call, ok := m.(*ast.CallExpr); ok && markerName(call) == "__elems" {
 			sl := x.eval(st, call.Args[0])
 			t := x.typeOf(call.Args[0]).Underlying().(*types.Slice)
